@@ -474,6 +474,11 @@ pub async fn make_node(world: &World, i: usize, spec: &NodeSpec) -> SimNode {
 pub async fn make_node_at(world: &World, addr: SocketAddr, spec: &NodeSpec) -> SimNode {
     // instrumented lock-section boundaries yield once: other runnable tasks interleave there
     verif_hooks::set_sched_yields(1);
+    // peer lists taken from hash maps (the goodbye order of stop()) are put in ascending order unless the scenario
+    // chose another one: hash-map iteration order is random per process and would make prefixes unreplayable
+    if PEER_ORDER_SET.with(|c| !c.get()) {
+        verif_hooks::set_peer_order(1);
+    }
     let tid_hex = hex::encode(spec.tid);
     let sock = world.add_endpoint(spec.tid, addr, false);
     let app_id = spec.app_id.clone().unwrap_or_else(|| tid_hex.clone());
@@ -490,13 +495,25 @@ pub async fn make_node_at(world: &World, addr: SocketAddr, spec: &NodeSpec) -> S
     SimNode { mgr, transport, tid: spec.tid, tid_hex: tid_hex.clone(), app_id: app_id.clone(), addr, pos: dht_key_of(&tid_hex), self_pos: dht_key_of(&app_id) }
 }
 
+thread_local! {
+    static PEER_ORDER_SET: std::cell::Cell<bool> = const { std::cell::Cell::new(false) };
+}
+
+/// Scenario choice: order (1 ascending, 2 descending) in which a stopping node says goodbye to its peers.
+pub fn choose_peer_order(mode: u8) {
+    PEER_ORDER_SET.with(|c| c.set(true));
+    verif_hooks::set_peer_order(mode);
+}
+
 /// Run until every other task is blocked (paused clock: the 1 ns timer only fires when the runtime is idle).
 pub async fn settle() {
     tokio::time::sleep(Duration::from_nanos(1)).await;
 }
 
 pub fn paused_runtime() -> tokio::runtime::Runtime {
-    tokio::runtime::Builder::new_current_thread().enable_all().start_paused(true).build().expect("runtime")
+    // `tokio::select!` picks among ready branches with the runtime's RNG: seeded (tokio_unstable), so that a
+    // schedule prefix replays to the same execution
+    tokio::runtime::Builder::new_current_thread().enable_all().start_paused(true).rng_seed(tokio::runtime::RngSeed::from_bytes(b"vh-netsim")).build().expect("runtime")
 }
 
 /// a dials b (production connect path), then both sides settle.
